@@ -293,6 +293,75 @@ MUTANTS = [
     M("benign-mkdir-bounds-mirrored", T,
       "    if resp.status < 200 or resp.status >= 300:\n        raise HTTPError(\"Error during mkdir\", resp)",
       "    failed = 299 < resp.status or 200 > resp.status\n    if failed:\n        raise HTTPError(\"Error during mkdir\", resp)", None),
+    # ---- C42.8 the directory key is an injective encoding of the contents (lookup side and stored side)
+    M("dirhash-name-nfc-normalised", B,
+      '            entries.append( [name.encode("utf-8"), contents[name]] )',
+      '            entries.append( [normalize(name).encode("utf-8"), contents[name]] )', "C42.8",
+      edits=[(B, "from allmydata.util.encodingutil import to_bytes\n", "from allmydata.util.encodingutil import to_bytes, normalize\n")]),
+    M("dirhash-name-casefolded-temporary", B,
+      '        for name in contents:\n            entries.append( [name.encode("utf-8"), contents[name]] )',
+      '        for name in contents:\n            key = name.lower()\n            entries.append( [key.encode("utf-8"), contents[name]] )', "C42.8"),
+    M("dirhash-name-undecodable-dropped", B,
+      '            entries.append( [name.encode("utf-8"), contents[name]] )',
+      '            entries.append( [name.encode("ascii", "ignore"), contents[name]] )', "C42.8"),
+    M("dirhash-name-truncated-in-join", B,
+      '        data = b"".join([netstring(name_utf8)+netstring(cap)', '        data = b"".join([netstring(name_utf8[:255])+netstring(cap)', "C42.8"),
+    M("dirhash-cap-shortened", B,
+      '            entries.append( [name.encode("utf-8"), contents[name]] )',
+      '            entries.append( [name.encode("utf-8"), to_bytes(contents[name])[:40]] )', "C42.8"),
+    M("dirhash-cap-of-other-child", B,
+      '            entries.append( [name.encode("utf-8"), contents[name]] )',
+      '            entries.append( [name.encode("utf-8"), contents[name.strip()]] )', "C42.8"),
+    M("dirhash-precision-format", B,
+      '        data = b"".join([netstring(name_utf8)+netstring(cap)',
+      '        data = b"".join([netstring(b"%.64s" % name_utf8)+netstring(cap)', "C42.8"),
+    M("dirhash-stored-under-normalised-key", B,
+      "        if not row:\n            return DirectoryResult(self, dirhash_s, None, False)\n",
+      "        if not row:\n"
+      "            nfc = b\"\".join([netstring(normalize(n).encode(\"utf-8\"))+netstring(c) for (n, c) in sorted(contents.items())])\n"
+      "            return DirectoryResult(self, base32.b2a(backupdb_dirhash(nfc)), None, False)\n", "C42.8",
+      edits=[(B, "from allmydata.util.encodingutil import to_bytes\n", "from allmydata.util.encodingutil import to_bytes, normalize\n")]),
+    M("dirhash-stored-under-swapped-framing", B,
+      "        if not row:\n            return DirectoryResult(self, dirhash_s, None, False)\n",
+      "        if not row:\n"
+      "            v2 = b\"\".join([netstring(cap)+netstring(name_utf8) for (name_utf8,cap) in entries])\n"
+      "            return DirectoryResult(self, base32.b2a(backupdb_dirhash(v2)), None, False)\n", "C42.8"),
+    M("benign-dirhash-name-encoded-first", B,
+      '        for name in contents:\n            entries.append( [name.encode("utf-8"), contents[name]] )',
+      '        for name in contents:\n            name_utf8 = name.encode("utf8")\n            childcap = contents[name]\n'
+      '            entries.append( (name_utf8, childcap) )', None),
+    M("benign-dirhash-items-and-sorted", B,
+      '        for name in contents:\n            entries.append( [name.encode("utf-8"), contents[name]] )\n        entries.sort()\n',
+      '        for (name, childcap) in contents.items():\n            entries.append( [to_bytes(name), childcap] )\n'
+      '        entries = sorted(entries)\n', None),
+    M("benign-dirhash-key-through-temporaries", B,
+      "        if not row:\n            return DirectoryResult(self, dirhash_s, None, False)\n",
+      "        if not row:\n            key = dirhash_s\n            fresh = DirectoryResult(self, key, None, False)\n            return fresh\n", None),
+    M("benign-dirhash-recomputed-identically", B,
+      "        if not row:\n            return DirectoryResult(self, dirhash_s, None, False)\n",
+      "        if not row:\n            return DirectoryResult(self, base32.b2a(backupdb_dirhash(data)), None, False)\n", None),
+    # ---- C42.9 the file key is the path itself
+    M("path-key-casefolded", B,
+      "        path = abspath_expanduser_unicode(path)\n\n        # TODO: consider using get_pathinfo.",
+      "        path = abspath_expanduser_unicode(path.lower())\n\n        # TODO: consider using get_pathinfo.", "C42.9"),
+    M("path-key-normalised-for-lookup", B,
+      '                  " FROM local_files"\n                  " WHERE path=?",\n                  (path,))',
+      '                  " FROM local_files"\n                  " WHERE path=?",\n                  (normalize(path),))', "C42.9",
+      edits=[(B, "from allmydata.util.encodingutil import to_bytes\n", "from allmydata.util.encodingutil import to_bytes, normalize\n")]),
+    M("path-key-truncated-on-insert", B,
+      "                                (path, size, mtime, ctime, fileid))", "                                (path[-255:], size, mtime, ctime, fileid))",
+      "C42.9"),
+    M("path-key-basename-on-update", B,
+      "                                (size, mtime, ctime, fileid, path))", "                                (size, mtime, ctime, fileid, os.path.basename(path)))",
+      "C42.9"),
+    M("benign-path-explicit-long-path", B,
+      "        path = abspath_expanduser_unicode(path)\n\n        # TODO: consider using get_pathinfo.",
+      "        path = abspath_expanduser_unicode(path, long_path=True)\n\n        # TODO: consider using get_pathinfo.", None),
+    M("benign-path-binding-hoisted", B,
+      '                  " FROM local_files"\n                  " WHERE path=?",\n                  (path,))',
+      '                  " FROM local_files"\n                  " WHERE path=?",\n                  key)', None,
+      edits=[(B, "        now = time.time()\n        c = self.cursor\n\n        c.execute(\"SELECT size,mtime,ctime,fileid\"",
+              "        now = time.time()\n        c = self.cursor\n        abspath = path\n        key = (abspath,)\n        c.execute(\"SELECT size,mtime,ctime,fileid\"")]),
     # ---- vanished anchor
     M("vanish-mkdir", T, "def mkdir(contents, options):", "def mkdir_immutable(contents, options):", "ANALYSIS-ERROR"),
 ]
